@@ -33,6 +33,23 @@ def gen_module(rng: random.Random, full: str, known: List[Tuple[str, str]], docf
     elif ext < .4:
         L.append('from twisted.python.deprecate import deprecated\nfrom incremental import Version')
     defined: List[str] = []
+    if any('zope' in x for x in L):
+        # interfaces declaring the same members; classes that get them only through their bases
+        ifs = rng.sample(['IOne', 'ITwo', 'IThree', 'IFour', 'IFive'], rng.randint(2, 5))
+        for k, iname in enumerate(ifs):
+            base = ifs[k - 1] if k and rng.random() < .3 else 'Interface'
+            L.append('class %s(%s):\n    """Interface %s."""\n    def run():\n        """run per %s"""\n    def stop():\n        """stop per %s"""'
+                     % (iname, base, iname, iname, iname))
+        carriers = []
+        for k, iname in enumerate(ifs):
+            if rng.random() < .5 and k + 1 < len(ifs):
+                L.append('@implementer(%s, %s)\nclass Carrier%d:\n    """carrier"""' % (iname, ifs[k + 1], k))
+            else:
+                L.append('@implementer(%s)\nclass Carrier%d:\n    """carrier"""' % (iname, k))
+            carriers.append('Carrier%d' % k)
+        L.append('class Gathered(%s):\n    """all interfaces through the bases"""\n    def run(self): pass\n    def stop(self): pass'
+                 % ', '.join(rng.sample(carriers, len(carriers))))
+        defined += ifs[:1] + ['Gathered']
     if rng.random() < .4:
         L.append('__all__ = [%s]' % ', '.join(repr(n) for n in rng.sample(CLASS_NAMES + FUNC_NAMES, 2)))
     for a in rng.sample(ATTR_NAMES, rng.randint(0, 3)):
@@ -151,6 +168,98 @@ def gen_project(rng: random.Random, want_roots: Optional[int] = None, want_name:
         case['templates'] = {'extra.css': 'body { color: #%03d; }\n' % rng.randint(0, 999),
                              'static/more.js': '// extra\n', 'zz_extra.txt': 'x', 'Aa_extra.txt': 'y'}
     return case
+
+
+ZOPE_SRC = '''"""Services: interfaces that reach a class only through its bases."""
+from zope.interface import Interface, Attribute, implementer, classImplements
+
+class IAlpha(Interface):
+    """Alpha."""
+    level = Attribute("level per IAlpha")
+    def run():
+        """Run, as specified by IAlpha."""
+
+class IBeta(Interface):
+    def run():
+        """Run, as specified by IBeta."""
+    def stop():
+        """Stop, as specified by IBeta."""
+
+class IGamma(IBeta):
+    def run():
+        """Run, as specified by IGamma."""
+
+class IDelta(Interface):
+    level = Attribute("level per IDelta")
+    def run():
+        """Run, as specified by IDelta."""
+    def stop():
+        """Stop, as specified by IDelta."""
+
+class IEpsilon(Interface):
+    def run():
+        """Run, as specified by IEpsilon."""
+
+class IZeta(Interface):
+    def run():
+        """Run, as specified by IZeta."""
+    def stop():
+        """Stop, as specified by IZeta."""
+
+@implementer(IAlpha)
+class AlphaBase:
+    """Base providing IAlpha."""
+
+@implementer(IBeta)
+class BetaBase:
+    """Base providing IBeta."""
+
+@implementer(IGamma, IDelta)
+class GammaDeltaBase:
+    """Base providing IGamma and IDelta."""
+
+class EpsilonZetaBase:
+    """Gets its interfaces from classImplements."""
+classImplements(EpsilonZetaBase, IEpsilon, IZeta)
+
+class Service(AlphaBase, BetaBase, GammaDeltaBase, EpsilonZetaBase):
+    """Gets all its interfaces from its bases."""
+    level = 1
+    def run(self):
+        pass
+    def stop(self):
+        pass
+
+class SubService(Service):
+    def run(self):
+        pass
+
+@implementer(IZeta)
+class Mixed(GammaDeltaBase, AlphaBase):
+    """One direct interface, three inherited."""
+    def stop(self):
+        pass
+    def run(self):
+        pass
+'''
+PLAIN_SRC = '"""Mod."""\nclass K:\n    """k"""\n    def run(self):\n        """r"""\n'
+
+
+def corpus_cases() -> List[Dict[str, Any]]:
+    """deterministic cases, run first in every tier"""
+    out: List[Dict[str, Any]] = []
+    # zope.interface: several interfaces declaring the same member, inherited only through the bases
+    out.append({'files': {'zsvc.py': ZOPE_SRC}, 'dirs': [], 'roots': ['zsvc.py'], 'args': ['-q', '--project-name=Z'], 'time': 'epoch'})
+    out.append({'files': {'zp/__init__.py': '"""zp"""\n', 'zp/ifaces.py': ZOPE_SRC,
+                          'zp/impl.py': 'from zp.ifaces import Service, Mixed, GammaDeltaBase, AlphaBase\n'
+                                        'class Impl(Service):\n    def run(self): pass\n    def stop(self): pass\n'
+                                        'class Other(AlphaBase, GammaDeltaBase):\n    level = 2\n    def run(self): pass\n'},
+                'dirs': [], 'roots': ['zp'], 'args': ['-q', '--docformat=restructuredtext'], 'time': 'buildtime'})
+    # SOURCE_DATE_EPOCH at its edges: 0 is a valid epoch (1970-01-01 00:00:00); the second run starts 2 s later
+    for ep in ('0', '1', '4102444800'):
+        out.append({'files': {'m.py': PLAIN_SRC}, 'dirs': [], 'roots': ['m.py'], 'args': ['-q', '--project-name=E' + ep],
+                    'time': 'epoch:' + ep, 'gap': 2})
+    return out
 
 
 def fs_nodes(case: Dict[str, Any]) -> List[Any]:
@@ -586,7 +695,8 @@ class Check(PropertyCheck):
     # ---- E. the byte differential
     def cli_cases(self) -> List[Any]:
         n = 12 if self.tier == 'quick' else 300
-        out = []
+        out = corpus_cases()
+        self.stats['cli_corpus_cases'] = len(out)
         for i in range(n):
             if i % 3 == 0:
                 c = gen_project(self.rng, want_roots=2 + (i // 3) % 2, want_name=False)   # the class 17874d0 was about
@@ -603,6 +713,21 @@ class Check(PropertyCheck):
         if self.tier == 'thorough':
             out.append({'external': 'pydoctor', 'files': {}, 'roots': [], 'args': ['-q', '--project-name=pydoctor', '--docformat=epytext'],
                         'time': 'epoch'})
+        return out
+
+    def model_buildtimes(self, cases: List[Any]) -> List[str]:
+        """the time stamp the pages must carry, from Model.buildtime (the clock is given as -1: never to be seen)"""
+        import calendar, datetime, time as _t
+        ins = []
+        for c in cases:
+            t = c.get('time', 'epoch')
+            if t.startswith('epoch'):
+                ins.append(enc([6, [int(t.split(':', 1)[1]) if ':' in t else 1234567890], None, -1]))
+            else:
+                ins.append(enc([6, None, [calendar.timegm(_t.strptime('2009-02-13 23:31:30', '%Y-%m-%d %H:%M:%S'))], -1]))
+        out = []
+        for o in self.model('det', ins):
+            out.append(datetime.datetime.utcfromtimestamp(dec(o)).strftime('%Y-%m-%d %H:%M:%S'))
         return out
 
     @staticmethod
@@ -649,6 +774,7 @@ class Check(PropertyCheck):
             items.append((f['roots'], list(range(self.dedup_len(f['roots']))), pn[0] if pn else None, '', f['rootkinds'],
                           list(range(len(set(f['rootkinds']))))))
         mod = self.model_roots(items)
+        bt_want = self.model_buildtimes(gen)
         distinct = set()
         for i, (c, r) in enumerate(zip(gen + ext, res)):
             self.evaluations += r['runs']
@@ -674,8 +800,10 @@ class Check(PropertyCheck):
                                      case={'kind': 'cli', 'case': c, 'seeds': seeds}, observed=d))
             if i < len(gen) and r['observed']['files'] and 'crash' not in r:
                 m = mod[i]
-                want = {'project': m['project'], 'symlinks': {m['symlink']: 'index.html'} if m['symlink'] else {}}
-                got = {'project': r['observed']['project'], 'symlinks': r['observed']['symlinks']}
+                want = {'project': m['project'], 'symlinks': {m['symlink']: 'index.html'} if m['symlink'] else {},
+                        'buildtime': bt_want[i]}
+                got = {'project': r['observed']['project'], 'symlinks': r['observed']['symlinks'],
+                       'buildtime': r['observed'].get('buildtime')}
                 if want != got and len([v for v in out if v.kind == 'correspondence']) < limit:
                     out.append(Violation('correspondence', 'project name / compat symlink of a real run differ from the model',
                                          case={'kind': 'cli', 'case': c, 'seeds': seeds}, expected=want, observed=got))
